@@ -222,6 +222,16 @@ func pairsEqual(a, b []kvPair) bool {
 	return true
 }
 
+// genVal draws a value (hex): unique per step so that a read is attributable to one write, except
+// that one write in sixteen stores the empty value (the application stores empty values under its
+// index keys, and "present with an empty value" is not "absent").
+func genVal(r *core.Rand, stepNo, extra int) string {
+	if r.Intn(16) == 0 {
+		return ""
+	}
+	return core.Hex(append([]byte{byte(stepNo), byte(stepNo >> 8)}, r.Bytes(r.Intn(extra))...))
+}
+
 func optBytes(h *string) []byte {
 	if h == nil {
 		return nil
@@ -497,7 +507,7 @@ func (s *kvSim) gen(r *core.Rand) kvStep {
 		}
 		return kvStep{Op: "push", Kind: "cache"}
 	case 1:
-		return kvStep{Op: "set", K: core.Hex(genKey(r, 3)), V: core.Hex(append([]byte{byte(s.stepNo), byte(s.stepNo >> 8)}, r.Bytes(r.Intn(3))...))}
+		return kvStep{Op: "set", K: core.Hex(genKey(r, 3)), V: genVal(r, s.stepNo, 3)}
 	case 2:
 		return kvStep{Op: "del", K: core.Hex(genKey(r, 3))}
 	case 3:
